@@ -48,8 +48,25 @@ fn derived_key_of(bytes: &[u8]) -> Option<RecordKey> {
     let kind = RecordHeader::from_record(&r).ok()?.kind;
     match kind {
         RecordKind::Chunk => {
+            // independent of the code under test: a stored chunk is the two header bytes followed by one MessagePack
+            // byte string, and its key is the hash of that string
+            let body = bytes.get(2..)?;
+            let (len, at) = match *body.first()? {
+                0xc4 => (*body.get(1)? as usize, 2),
+                0xc5 => (u16::from_be_bytes([*body.get(1)?, *body.get(2)?]) as usize, 3),
+                0xc6 => (u32::from_be_bytes([*body.get(1)?, *body.get(2)?, *body.get(3)?, *body.get(4)?]) as usize, 5),
+                _ => return None,
+            };
+            if body.len() != at + len {
+                return None;
+            }
+            let by_hand = RecordKey::new(&XorName::from_content(&body[at..]));
+            // and the repository's decoder must agree with that reading
             let c: Chunk = try_deserialize_record(&r).ok()?;
-            Some(RecordKey::new(&XorName::from_content(c.value())))
+            if RecordKey::new(&XorName::from_content(c.value())) != by_hand || NetworkAddress::from_chunk_address(*c.address()).to_record_key() != by_hand {
+                return None;
+            }
+            Some(by_hand)
         }
         RecordKind::Scratchpad => {
             let s: Scratchpad = try_deserialize_record(&r).ok()?;
@@ -373,13 +390,129 @@ fn mixed_transaction_vectors(run: &Run, stub: &Arc<EvmStub>) {
     }
 }
 
+
+/// Chunk records whose body is well-formed MessagePack of *another shape* than the one the encoder writes — an
+/// explicit address next to the content (sequence or map, either order), nesting, the content as a sequence of
+/// integers — presented under the address they claim, on every path, paid for that address. Nothing may be stored
+/// under a key its content does not hash to; the honest shape under its own hash is the control.
+fn reshaped_chunk_bodies(run: &Run, stub: &Arc<EvmStub>) {
+    use bytes::Bytes;
+    use serde::Serialize;
+    #[derive(Serialize)]
+    struct AddrAndValue {
+        address: ant_protocol::storage::ChunkAddress,
+        value: Bytes,
+    }
+    let content = Bytes::from_static(b"content of the crafted chunk");
+    let claimed = XorName::from_content(b"the address of some other chunk");
+    let victim = ant_protocol::storage::ChunkAddress::new(claimed);
+    let honest_key = RecordKey::new(&XorName::from_content(&content));
+    let claimed_key = NetworkAddress::from_chunk_address(victim).to_record_key();
+    let shapes: Vec<(&str, Vec<u8>)> = vec![
+        ("honest: the content as one byte string", rmp_serde::to_vec(&content).unwrap()),
+        ("(address, value) as a sequence", rmp_serde::to_vec(&(victim, content.clone())).unwrap()),
+        ("(value, address) as a sequence", rmp_serde::to_vec(&(content.clone(), victim)).unwrap()),
+        ("(address as a byte string, value)", rmp_serde::to_vec(&(Bytes::copy_from_slice(&claimed.0), content.clone())).unwrap()),
+        ("{address, value} as a map", rmp_serde::to_vec_named(&AddrAndValue { address: victim, value: content.clone() }).unwrap()),
+        ("[value] as a one-element sequence", rmp_serde::to_vec(&(content.clone(),)).unwrap()),
+        ("[[value]] nested", rmp_serde::to_vec(&((content.clone(),),)).unwrap()),
+        ("value as a sequence of integers", rmp_serde::to_vec(&content.to_vec()).unwrap()),
+    ];
+    let mut n = 0u64;
+    for (si, (sname, body)) in shapes.iter().enumerate() {
+        for path in [Path::PaidPut, Path::Replication, Path::KadInbound] {
+            for (kname, key) in [("the claimed address", &claimed_key), ("the hash of the content", &honest_key)] {
+                for claimed_held in [false, true] {
+                    n += 1;
+                    let root = fresh_scratch("c04s");
+                    let mut rig = NodeRig::new(1, &root, stub.clone());
+                    rig.add_peers(&[2, 3]);
+                    stub.set(Chain::Paid);
+                    if claimed_held {
+                        // the claimed address is held by its legitimate chunk
+                        let c = Chunk::new(Bytes::from_static(b"the address of some other chunk"));
+                        let (nd, r) = (rig.node.clone(), rec::chunk_record(&c));
+                        let _ = rig.run("prior", async move { nd.store_replicated_in_record(r).await });
+                    }
+                    let watch = vec![claimed_key.clone(), honest_key.clone()];
+                    let before = snapshot(&mut rig, &watch);
+                    let desc = json!({"chunk_body": sname, "path": format!("{path:?}"), "presented_under": kname, "claimed_address_already_held": claimed_held});
+                    run.case(desc.to_string().as_bytes(), si != 0);
+                    let now = SystemTime::now() - Duration::from_secs(30);
+                    let addr = rec::xorname_of_key(key);
+                    let proof = rec::proof(vec![(1, rec::quote(1, addr, now)), (2, rec::quote(2, addr, now)), (3, rec::quote(3, addr, now))]);
+                    let value = match path {
+                        Path::PaidPut => {
+                            // (proof, chunk): the same pair the encoder writes, with the chunk part in the shape under test
+                            let mut v = vec![0x91u8, 0x00, 0x92];
+                            v.extend_from_slice(&rmp_serde::to_vec(&proof).unwrap());
+                            v.extend_from_slice(body);
+                            v
+                        }
+                        _ => [&[0x91u8, 0x01][..], body].concat(),
+                    };
+                    let record = Record { key: key.clone(), value, publisher: None, expires: None };
+                    let result: Option<Result<(), String>> = match path {
+                        Path::PaidPut => {
+                            let nd = rig.node.clone();
+                            rig.run("put", async move { nd.validate_and_store_record(record).await })
+                        }
+                        Path::Replication => {
+                            let nd = rig.node.clone();
+                            rig.run("repl", async move { nd.store_replicated_in_record(record).await })
+                        }
+                        _ => {
+                            let d = &mut rig.d;
+                            let driver = &mut d.driver;
+                            let _ = d.exec.capture(None, "kad-put", || driver.verif_store().put(record));
+                            rig.settle();
+                            rig.d.drain_events();
+                            let mut res = None;
+                            while let Some(e) = rig.d.events.pop_front() {
+                                if let NetworkEvent::UnverifiedRecord(rcd) = e {
+                                    let nd = rig.node.clone();
+                                    res = rig.run("validate", async move { nd.validate_and_store_record(rcd).await });
+                                }
+                            }
+                            res.or(Some(Err("no validation event".into())))
+                        }
+                    };
+                    let after = snapshot(&mut rig, &watch);
+                    run.outcome(format!("shape:{:?}/{}", result.as_ref().map(|r| r.is_ok()), after != before).as_bytes());
+                    let honest = si == 0 && *key == honest_key;
+                    if honest {
+                        if path != Path::KadInbound && rig.stored(&honest_key).is_none() {
+                            run.violation("derived-key-accepted", &format!("{path:?}"), format!("the honest chunk under the hash of its content was not stored ({desc}): {result:?}"), json!({"case": desc}));
+                        }
+                    } else if *key == honest_key {
+                        // another spelling of the same content under the hash of that content (a liberal decoder reads a
+                        // sequence of integers as a byte string): whether it is taken is not the statement's business, what
+                        // ends up stored is — judged by the re-derivation below
+                    } else {
+                        if after != before {
+                            run.violation("mismatched-key-rejected", &format!("reshaped-body/{path:?}"), format!("a chunk record of another shape changed the store ({desc}): {before} -> {after}"), json!({"case": desc}));
+                        }
+                        if matches!(result, Some(Ok(()))) && path != Path::KadInbound && !(claimed_held && *key == claimed_key) {
+                            run.violation("mismatched-key-rejected", "reshaped-body/returned-ok", format!("a chunk record of another shape was answered Ok ({desc})"), json!({"case": desc}));
+                        }
+                    }
+                    check_all_stored_keys_derived(run, &mut rig, &desc);
+                    drop(rig);
+                    let _ = std::fs::remove_dir_all(&root);
+                }
+            }
+        }
+    }
+    run.extra("reshaped_chunk_bodies", json!(n));
+}
+
 pub fn main(tier: Option<&str>) {
     let run = Run::new("C04", "model_checking", tier);
     run.rule(
         "kind 4 x path {paid put, unpaid update, replication, kad inbound} x key {derived, another object of the same kind, an object of \
          another kind, random, the derived key minus its last byte / plus one byte, the empty key} x {empty store, derived key already held, the presented foreign key already held by its legitimate record, a store full (capacity 2) of two unrelated chunks farther away than every key of the case}: each on a fresh real Node + SwarmDriver under the FIFO \
          schedule, the presented key paid for by an otherwise valid proof; after each case every record the store lists is re-derived \
-         from its bytes. Plus 6 malformed inbound records and oversized ones (at the limit, one above, twice the limit) under the header of each of the 8 record kinds. Non-trivial = the key is not the derived one.",
+         from its bytes. Plus 6 malformed inbound records and oversized ones (at the limit, one above, twice the limit) under the header of each of the 8 record kinds; chunk records whose body is well-formed MessagePack of 7 other shapes (an explicit address next to the content as sequence or map, nesting, integers) x path x {under the claimed address, under the hash of the content} x claimed address held or not; a stored chunk is re-derived by reading its MessagePack byte string by hand. Non-trivial = the key is not the derived one.",
     );
     run.assume("sequential check under the FIFO schedule; payment is valid for the key that is presented");
     let mut cases = vec![];
@@ -415,6 +548,7 @@ pub fn main(tier: Option<&str>) {
     let stub = Arc::new(EvmStub::start());
     malformed_and_oversized(&run, &stub);
     mixed_transaction_vectors(&run, &stub);
+    reshaped_chunk_bodies(&run, &stub);
     run.count("states", total as u64);
     run.count("transitions", total as u64);
     run.sample(json!({"kind":"Register","path":"UnpaidUpdate","key":"SameKindOther","already_held":"PresentedKey"}));
